@@ -1,51 +1,78 @@
 PROP = dict(
-    drivers=['Rip', 'Bgi', 'Igs'],
-        gens=['rip', 'bgi', 'igs'],
-        lake=['IcyVerif.Props.C20'],
+    drivers=['Rip', 'Bgi', 'Igs', 'Ripc', 'Igsx'],
+        gens=['rip', 'bgi', 'igs', 'bgix', 'riprun', 'igspaint'],
+        lake=['IcyVerif.Props.C20', 'IcyVerif.Props.C20Canvas', 'IcyVerif.Props.C20Igs'],
         ns='IcyVerif.C20',
         theorems=['rip_table_wellformed', 'base36_bounded', 'rip_step_total', 'rip_lex_total',
                   'put_pixel_in_bounds', 'put_pixel_keeps_canvas', 'bar_rect_cost', 'bar_rect_cost_in_window',
                   'bar_no_panic', 'fill_span_cost', 'line_cost', 'canvas_complete',
                   'igs_lex_total_partial', 'igs_next_action_total_partial', 'igs_loop_counter_safe', 'igs_lex_total',
-                  'igs_loop_delay_zero', 'igs_loop_terminates'],
+                  'igs_loop_delay_zero', 'igs_loop_terminates', 'igs_loop_terminates_nonneg', 'igs_numbers_nonneg',
+                  # RIP canvas (Props/C20Canvas.lean)
+                  'picture_complete', 'picture_complete_rip', 'flood_fill_terminates', 'flood_fill_bound_value',
+                  'find_line_in_range', 'flood_fill_keeps_canvas', 'rip_stream_picture_complete',
+                  'bgi_line_total', 'rip_command_total', 'rip_run_kinds',
+                  # IGS DrawExecutor (Props/C20Igs.lean)
+                  'igs_arg_table', 'igs_arg_count_validated', 'igs_poly_validation', 'igs_exec_keeps_invariant',
+                  'igs_picture_complete', 'igs_stream_picture_complete', 'igs_set_pixel_total', 'igs_fill_rect_total',
+                  'picture_fold_eq', 'igs_draw_line_terminates_partial', 'igs_poly_lines_total',
+                  'igs_flood_fill_terminates', 'igs_blit_screen_total'],
         harness='c20',
         harness_timeout=7200,
         design='DESIGN.md §4 C20',
-        technique='PARTIAL BY DESIGN.  Lean 4 proofs (invariant + induction over the character list; decide on the '
-                  'regenerated command table; omega for the i32 range side conditions) about executable models of the '
-                  'parts that are logic: the RIP lexer interpreting the command table regenerated from commands.rs/mod.rs, '
-                  'the BGI core (put_pixel, get_pixel, bar/bar_rect clipping and fill loops with an explicit cost, '
-                  'line with fill_x/fill_y, viewport, palette, styles) with checked i32 arithmetic (line: unbounded Int), the IGS lexer and loop stepping arithmetic; '
-                  'differential correspondence of all three with the real crate (per-character lexer digests incl. the '
-                  're-serialised command under construction; canvas hash + state after API call sequences incl. i32 '
-                  'extremes).  Everything else (arcs, ellipses, Beziers, flood fill, stroked fonts, buttons, icons, '
-                  'IGS painting, ANSI fallback) is exploration-supported, no theorem: the same streams are fed to the real '
-                  'code char by char in a worker process with the oracle ok/err/panic:<site>, per-character time limit, '
-                  'hang watchdog, picture size == width*height*4.',
+        technique='Lean 4 proofs (invariants + induction over character lists, fuel / measure arguments for the loops, decide on '
+                  'regenerated tables, omega for the i32 / i64 range side conditions) about executable models of: the RIP lexer '
+                  'interpreting the command table regenerated from commands.rs/mod.rs; the BGI core (put_pixel, get_pixel, bar, line '
+                  'with fill_x/fill_y, viewport, palette with colours, styles); RIP flood fill as the worklist / scan-line algorithm of '
+                  'the code (termination by the measure 3 x uncovered pixels + stack size, step bound by the canvas size, every '
+                  'screen / span-list index in range); rectangle, polygon, poly-line; `run` of 17 RIP commands (bodies checked by the '
+                  'translator) on top of the lexer model; get_picture_data (RIP and IGS); the IGS lexer with loop stepping AND loop '
+                  'parameter arithmetic; the integer part of the IGS DrawExecutor (execute_command with the regenerated argument-count '
+                  'table and the poly rule, all painting primitives with checked i32/i64 arithmetic, Bresenham termination, flood fill '
+                  'termination, the executor invariant kept by every command).  Differential correspondence of all of it with the '
+                  'real crate: per-character lexer digests, canvas hash + state after BGI API sequences incl. flood-fill scenes, '
+                  'whole RIP / IGS streams with canvas hash, get_picture_data length + hash and outcome letters (kinds ripc / igsx).  '
+                  'Everything else (arcs, ellipses, Beziers of RIP in f64, RIP filled polygon, stroked fonts, buttons, icons, IGS text '
+                  'output, ANSI fallback) is exploration-supported, no theorem: the same streams are fed to the real code char by char '
+                  'in a worker process with the oracle ok/err/panic:<site>, per-character time limit, hang watchdog, picture size == '
+                  'width*height*4.',
         rule='cases: every RIP command (level 0, 1, 9; table read from the source, widths probed on the real parser) and '
              'every IGS command x every parameter string over {0,1,Z} (IGS: Z = 99999) of length 0..=6 (thorough 0..=8) on a '
-             'fresh state and after a state-setting prelude (viewport, write mode, fill pattern, line style, font, saved '
-             'image, button style / fill attributes, colours, resolution); sampled longer strings up to 12 (thorough 24: '
-             'constant strings, single-position variations, random); random multi-command streams with well-formed, '
-             'truncated, over-long and arbitrary parameter characters, continuation lines, text variables, unknown '
-             'commands, plain text, ESC[..! queries, IGS loops and chained commands; BGI API sequences with random and '
-             'extreme i32 arguments.  distinct_nontrivial = distinct (final digest, digest hash) / (observation) lines.',
-        modelled='RIP: Parser::print_char state machine (Default/GotRipStart/ReadCommand(level)/ReadParams/SkipEOL/EndRip), '
-                 'parse_parameter, start_command/push_command, parse_base_36, generic Command::parse and to_rip_string over the '
-                 'regenerated table (letter, level, parse arms = parameter widths, format pieces), rip_counter, suspend_text; '
-                 'BGI: put_pixel, get_pixel, bar, bar_rect (solid + pattern rows), line / fill_x / fill_y (coordinates within +-4000: '
-                 'unbounded Int arithmetic), Rectangle::contains/intersect, set_viewport, '
-                 'clear_viewport, set_color/bk/fill color, set_fill_style, set_write_mode, set_line_style/thickness/pattern, '
-                 'set_user_fill_pattern, fill pattern lookup, set_palette, set_palette_color, graph_defaults, screen.len(); '
-                 'IGS: Parser::print_char, get_next_action, parse_next_number, Loop::new / next_step stepping (from, to, step, '
-                 'delay, % parameters.len())',
-        not_modelled='exploration-supported, no theorem: what a RIP command does when run beyond the BGI core above - '
-                     'rectangle, draw_line (the Bresenham used by arcs and buttons), circle, ellipse, arc, pie slice, sector (f64 trigonometry), Bezier, polygons, '
-                     'flood fill, out_text / stroked fonts (font.rs, character.rs), get/put image, copy region, buttons, mouse '
-                     'fields, icons and file queries (file I/O; the harness uses an empty directory), text window; the IGS '
-                     'DrawExecutor (paint.rs: lines, circles, ellipses, fills, polygons, text, blits, resolution, pens); loop '
-                     'parameter value arithmetic; the ANSI fallback parser (C01); characters above U+00FF; wall-clock and memory',
+             'fresh state and after a state-setting prelude; sampled longer strings up to 12 (thorough 24); random multi-command '
+             'streams with well-formed, truncated, over-long and arbitrary parameter characters, continuation lines, text variables, '
+             'unknown commands, plain text, ESC[..! queries, IGS loops and chained commands; BGI API sequences with random and '
+             'extreme i32 arguments; flood-fill scenes (default / moved / oversize / tiny / empty viewports, obstacles, seeds on every '
+             'edge and corner of viewport and window, repeated fills); ripc streams (modelled RIP commands with exact / cut / over-long '
+             '/ polluted parameter lists, palettes of 0..=16 entries, colour numbers beyond the palette, polygon lists around the '
+             'announced count); igsx streams (every execute_command arm, parameter lists of every length around the declared one, pen '
+             '/ colour / pattern / line-type numbers at and beyond their tables, poly lists around points*2+1 with the border on, '
+             'blits inside and outside screen and saved block, resolution changes, loops with x / y / +n / -n / !n parameters).  '
+             'distinct_nontrivial = distinct (final digest, digest hash) / (observation) lines.',
+        modelled='RIP: Parser::print_char state machine, parse_parameter, start_command/push_command, parse_base_36, generic '
+                 'Command::parse and to_rip_string over the regenerated table, rip_counter, suspend_text; Command::run of ViewPort, '
+                 'EraseView, Color, SetPalette, OnePalette, WriteMode, Move, Pixel, Line, Rectangle, Bar, Polygon, PolyLine, Fill, '
+                 'LineStyle, FillStyle, FillPattern; Parser::get_picture_data; '
+                 'BGI: put_pixel, get_pixel, bar, bar_rect, line / fill_x / fill_y (coordinates within +-4000: unbounded Int '
+                 'arithmetic), rectangle, draw_poly, draw_poly_line, flood_fill / find_line / already_drawn (as repaired), '
+                 'Rectangle::contains/intersect, set_viewport, clear_viewport, colours, styles, patterns, set_palette / '
+                 'set_palette_color with the EGA / DOS colour tables, Palette::get_rgb / set_color, graph_defaults; '
+                 'IGS: Parser::print_char, get_next_action, parse_next_number, Loop::new / next_step (stepping, step-0 guard as '
+                 'repaired, parameter arithmetic); DrawExecutor::execute_command (all 31 arms), set_pixel, get_pixel, fill_pixel, '
+                 'draw_line, fill_rect, draw_poly, draw_polyline, fill_poly, round_rect, draw_poly_maker, fill_ellipse, draw_ellipse, '
+                 'draw_circle, flood_fill, blit_screen_to_screen / _to_memory / memory_to_screen, set_resolution, clear, '
+                 'get_picture_data (all as repaired)',
+        not_modelled='exploration-supported, no theorem: RIP circle, ellipse, arc, pie slice, sector (f64 trigonometry), Bezier, '
+                     'filled polygon (integer scan conversion: not done), draw_line (the Bresenham used by arcs and buttons), '
+                     'out_text / stroked fonts (font.rs, character.rs), get/put image, copy region, buttons, mouse fields, icons and '
+                     'file queries (file I/O; the harness uses an empty directory), text window, ResetWindows; IGS write_text (f32 '
+                     'glyph scaling) and the effects of commands on the text buffer / caret; the ANSI fallback parser (C01); '
+                     'characters above U+00FF; wall-clock and memory.  No coordinate-independent cost bound exists for IGS draw_line '
+                     'and the ellipse loops (the code walks unclipped lines: linear in the coordinate values), see '
+                     'igs_draw_line_terminates_partial.',
         assumptions=['terminal_state.cleared_screen is never set by the engine (the RIP model takes it as false)',
+                     'hypotheses StreamState / DrawState / ParamsOk of the BGI and RIP command theorems (viewport fields two base-36 '
+                     'digits, 8-row user pattern, 13 fill styles, 640x350 screen) are checked on the real state after every rip / ripc stream '
+                     '(oracle keys assumption:StreamState, assumption:DrawState)',
                      'the class of the ANSI fallback state (Default / CSI with first number / other) is an input of the RIP '
                      'lexer model, supplied by the harness and universally quantified in the theorems',
                      'streams are fed as chars U+0000..U+00FF (one per byte), as the crate\'s own tests do'],
